@@ -793,10 +793,38 @@ class AgentSchedulingComponent(rpu.AgentComponent):
 
             # cycle through waitpool, and see if we get anything placed now.
             self._log.debug_9('before bisect: %d', len(to_test))
+            skipped = list()
+
+            def _on_skip(task):
+                skipped.append(task['uid'])
+                self._prof_sched_skip(task)
+
             scheduled, unscheduled, failed = ru.lazy_bisect(to_test,
                                                     check=self._try_allocation,
-                                                    on_skip=self._prof_sched_skip,
+                                                    on_skip=_on_skip,
                                                     log=self._log)
+
+            # `lazy_bisect` skips tasks which it assumes not to fit.  That
+            # assumption does not hold in general (tasks differ in more than
+            # one dimension) - and while no task is active, no release will
+            # ever trigger another pass over the wait pool.  In that case
+            # check the skipped tasks individually until one got placed.
+            for task in list(unscheduled):
+
+                if self._active_cnt:
+                    break
+
+                if task['uid'] not in skipped:
+                    continue
+
+                try:
+                    if self._try_allocation(task):
+                        unscheduled.remove(task)
+                        scheduled.append(task)
+
+                except Exception as e:
+                    unscheduled.remove(task)
+                    failed.append([task, str(e)])
             self._log.debug_9('after  bisect: %d : %d : %d', len(scheduled),
                                                       len(unscheduled), len(failed))
 
